@@ -25,7 +25,7 @@ ASSUMPTIONS = [
     "the pending command whose sequence number a bad frame used may itself time out; the clauses protect other and later commands",
     "a flipped byte inside a correctly framed reply changes the decoded value undetectably (EZSP has no checksum) and is not flagged",
 ]
-PROBES = ["decodable_not_dispatched", "inject.truncated", "inject.empty", "inject.random", "inject.flip", "inject.fid_subst", "inject.seq_subst", "inject.unknown_id", "inject.repeated", "inject.stale_own_reply",
+PROBES = ["decodable_not_dispatched", "inject.truncated", "inject.empty", "inject.random", "inject.flip", "inject.fid_subst", "inject.seq_subst", "inject.unknown_id", "inject.repeated", "inject.stale_own_reply", "mode.renegotiate",
           "undecodable_ignored", "decodable_dispatched", "pending_seq_foreign_fid", "pending_seq_own_fid", "pending_call_timed_out_after_bad_frame",
           "after_command_ok", "mode.idle", "mode.pending"]
 
@@ -46,10 +46,11 @@ def plan(tier):
         for mode in ("idle", "pending"):
             for i in range(0, len(BASE), 6):
                 sweeps.append(("trunc", {"V": V, "mode": mode, "frames": BASE[i:i + 6], "sched": False}))
+        sweeps.append(("renegotiate", {"V": V, "sched": False}))
     return {
         "sweeps": sweeps,
         "exhaustive": "versions 4..14 x {no command pending, under a pending command's sequence} x every truncation (length 0..len-1, and the intact frame) of the base frame set present in that version",
-        "random": [("random", {}, 1)],
+        "random": [("random", {}, 6), ("soak", {}, 1)],
         "runs": 1500 if tier == "quick" else None,
         "budget_s": 60 if tier == "quick" else 900,
         "batch": 25,
@@ -97,6 +98,11 @@ def sample_frame(ncp, V, name, tape, seq):
 
 
 def run(scenario, params, tape, detail=False):
+    if scenario == "soak":
+        # the whole-stack soak (dst/soak.py); this check reports the clauses of its own property from it (nothing escapes a receive callback)
+        from .. import soak
+
+        return soak.run(params, tape, detail=detail)
     V = params["V"] if "V" in params else VERSIONS[tape.draw(len(VERSIONS), "V")]
     rig = e3.StackRig(tape, version=V, sched=params.get("sched", True), max_iters=800_000, fast_line=True, chunking=False)
     rig.line.ties = False
@@ -268,6 +274,40 @@ def run(scenario, params, tape, detail=False):
             except Exception as e:
                 viol.append(("C08.after", "command-failed", f"v{V}: getEui64 issued after {what} frame {data.hex()} raised {e!r}"))
 
+        if scenario == "renegotiate":
+            # frames whose ID the CURRENT handler does not know arrive while the legacy (v4) handler is active after a reset; after the version
+            # is negotiated again those IDs are ordinary commands of the new handler: "commands issued afterwards still complete normally"
+            from ..ncpmodel import tables
+            ids4 = {cid for (cid, _tx, _rx) in tables(4)[0].values()}
+            cands = [n for n, (cid, tx, rx) in ncp.cmds.items() if cid not in ids4 and cid < 256 and not n.endswith("Handler") and isinstance(tx, dict) and not tx
+                     and isinstance(rx, dict)][:8]
+            probe("mode.renegotiate")
+            if V == 4 or not cands:
+                return
+            await ez.reset()
+            for n in cands:
+                cid = ncp.cmds[n][0]
+                nr = len(raised)
+                n0 = len(cbs)
+                data = bytes([0xE0, 0x80, cid]) + b"\x00\x00"
+                injected.append(data)
+                probe("inject.unknown_id")
+                ncp.emit(data, 0.0, "bad")
+                await asyncio.sleep(0.05)
+                if len(raised) > nr:
+                    viol.append(("C08.noraise", "escaped", f"v{V}: EZSP.frame_received raised {raised[-1][2]} for a frame with ID 0x{cid:02X} during the legacy phase after a reset"))
+                if len(cbs) > n0:
+                    viol.append(("C08.cbvalid", "callback-for-bad-frame", f"v{V}: callback {cbs[-1][1]} invoked for a frame with ID 0x{cid:02X} that the legacy handler does not know"))
+            await ez.version()
+            for n in cands:
+                try:
+                    async with asyncio.timeout(11.0):
+                        await getattr(ez, n)()
+                    probe("after_command_ok")
+                except Exception as e:  # noqa: BLE001
+                    viol.append(("C08.after", "command-failed", f"v{V}: {n} (ID 0x{ncp.cmds[n][0]:02X}) issued after renegotiation raised {e!r}; a frame with that ID had arrived while the legacy handler was active"))
+                    break
+            return
         if scenario == "trunc":
             mode = params["mode"]
             probe("mode." + mode)
